@@ -149,13 +149,20 @@ def main():
                 # DropEmptyJob removes it): nothing to inject into
                 unrealisable.append(k)
                 continue
+            if s['pipeline'] == 'single' and s['at'] == 'loop' and sum(s['size']) == 0:
+                unrealisable.append(k)      # no molecule, so no boundary inside the loop to inject at
+                continue
             methods = ['nla', 'chic'] if (tier != 'quick' or s['at'] == 'done') else [['nla', 'chic'][k % 2]]
             for m in methods:
                 cases.append(make_case(len(cases) + 1, workdir, s, m, rng.randrange(1 << 30)))
             if s['at'] == 'done' and s['kind'] == 'none' and s['pipeline'] == 'multi':
                 # the same finished run on a layout with small contigs (the plan of the contig-per-process mode matters)
                 cases.append(make_case(len(cases) + 1, workdir, s, 'nla', rng.randrange(1 << 30), mixed=True))
-            if s['at'] == 'done' and s['kind'] == 'none' and s['tries'] == 0:
+            if s['at'] == 'done' and s['kind'] == 'none' and s['tries'] == 0 and sum(s['size']) > 0:
+                # falsy-but-valid input: a BAM without any record (finished run, earlier run present / absent as in s)
+                empty = dict(s, size=[0, 0, 0], k=0)
+                cases.append(make_case(len(cases) + 1, workdir, empty, 'nla', rng.randrange(1 << 30)))
+            if s['at'] == 'done' and s['kind'] == 'none' and s['tries'] == 0 and sum(s['size']) > 0:
                 # data-driven failure: the input holds a read that cannot be assigned to a cell (no SM tag, no demultiplexing
                 # information in its name) at position k of n - no fault is injected
                 for pos in ('first', 'mid', 'last'):
@@ -169,7 +176,12 @@ def main():
                 f.write(json.dumps(e, separators=(',', ':')) + '\n')
             n_fired += bool(results[c['id']]['events']['fired'])
     json.dump({'cases': len(cases), 'fired': n_fired, 'unrealisable_scenarios': len(unrealisable),
-               'not_fired': [c['id'] for c in cases if c['fault'] and not results[c['id']]['events']['fired']]}, open(outp + '.meta', 'w'))
+               # an input without records skips whole steps (no pysam.merge: the header-only file is moved; no job for a contig):
+               # crash points of the model that the real run then never passes are counted, not treated as a mapping error
+               'unreached_on_empty_input': sum(1 for c in cases if c['fault'] and sum(c['scn']['size']) == 0
+                                               and not results[c['id']]['events']['fired']),
+               'not_fired': [c['id'] for c in cases if c['fault'] and sum(c['scn']['size']) > 0
+                             and not results[c['id']]['events']['fired']]}, open(outp + '.meta', 'w'))
 
 
 if __name__ == '__main__':
